@@ -212,7 +212,7 @@ fn gen_sub(rng: &mut Rng, r: usize, c: usize, oob: bool, for_vector_src: bool) -
   }
 }
 
-pub const PRELUDE: &str = "inc(x<f64>) = z<f64> :=\n    z := x + 1.\naddtwo(x<f64>, y<f64>) = z<f64> :=\n    p := x + 0\n    z := p + y.\nbad(x<f64>) = z<f64> :=\n    y := x + 1\n    q := y + nosuchvar\n    z := q + 1.\nshadow(x<f64>) = z<f64> :=\n    y := x * 2\n    p := y + 1\n    z := p - 3.";
+pub const PRELUDE: &str = "inc(x<f64>) = z<f64> :=\n    z := x + 1.\naddtwo(x<f64>, y<f64>) = z<f64> :=\n    p := x + 0\n    z := p + y.\nbad(x<f64>) = z<f64> :=\n    y := x + 1\n    q := y + nosuchvar\n    z := q + 1.\nshadow(x<f64>) = z<f64> :=\n    y := x * 2\n    p := y + 1\n    z := p - 3.\nmut(x<f64>) = z<f64> :=\n    ~m := x\n    m = m + 1\n    z := m.\nmutm(x<[f64]>) = z<[f64]> :=\n    ~m := x\n    m[1] = 99\n    z := m.";
 
 thread_local! { static FUNCTIONS_ON: std::cell::Cell<bool> = const { std::cell::Cell::new(false) }; }
 pub fn set_functions(on: bool) { FUNCTIONS_ON.with(|f| f.set(on)); }
@@ -225,7 +225,9 @@ fn call_source(rng: &mut Rng, m: &Model) -> Expr {
   match rng.below(8) {
     0 | 1 => Expr::Call("inc".into(), vec![arg(rng)]),
     2 | 3 => Expr::Call("addtwo".into(), vec![arg(rng), arg(rng)]),
-    4 | 5 => Expr::Call("shadow".into(), vec![arg(rng)]),
+    4 => Expr::Call("shadow".into(), vec![arg(rng)]),
+    // a body that defines a mutable local from its argument and assigns to it: the caller's variable must not move
+    5 | 6 => Expr::Call("mut".into(), vec![arg(rng)]),
     _ => Expr::Call("inc".into(), vec![Expr::Call("shadow".into(), vec![arg(rng)])]),
   }
 }
@@ -380,6 +382,11 @@ fn gen_define(rng: &mut Rng, k: &Knobs, m: &Model, fault: bool) -> Op {
     return Op::Define { name, mutable, annot, e };
   }
   let class = rng.pick(&k.classes).clone();
+  if k.functions && choice >= 7 && rng.chance(1, 3) {
+    // a function that writes into a mutable copy of its matrix argument
+    let mats = names_where(m, |b| matches!(&b.v, SV::Mat(ek, ..) if ek == "f64"));
+    if !mats.is_empty() { return Op::Define { name, mutable, annot: None, e: Expr::Call("mutm".into(), vec![Expr::Var((*rng.pick(&mats)).clone())]) }; }
+  }
   if k.functions && choice >= 7 && rng.chance(1, 2) { return Op::Define { name, mutable, annot: None, e: call_source(rng, m) }; }
   if choice == 9 && (class == "scalar" || class == "matrix") {
     // annotated define from an f64 literal: conversion at definition time
